@@ -311,20 +311,22 @@ def run_module(classes, recs, names, idx, res, stats, model_codes, tag, pre, tex
           okc = False
       if not okc:
         mism_c.append(dict(stmt=texts[j], model=dc, cpython=[exc, msg[:80], tname]))
-    # ---- the oracle, on the implementation's output only
+    # ---- the oracle, on the implementation's output only (replay input shrunk: the class table is dropped
+    # when the statement does not mention a user class)
+    pre_min = pre if any(c["name"] + "()" in texts[j] for c in classes) else ""
     if flagged and not raised:
       fp = fingerprint(classes, rc, "fp", exc)
       stats["fp"][fp] += 1
       if stats["fp"][fp] == 1 and (fp in res.known or len(res.violations) < 3):
         res.violation(fp, f"pytype reports {errs} on `{texts[j]}`; CPython: "
                       + (f"raises {exc} (not a TypeError/AttributeError)" if exc else "runs cleanly"),
-                      dict(classes=pre, stmt=texts[j], pytype=errs, cpython=exc, kind="fp"))
+                      dict(classes=pre_min, stmt=texts[j], pytype=errs, cpython=exc, kind="fp"))
     if raised and not flagged and advertised(classes, rc, exc, msg):
       fp = fingerprint(classes, rc, "fn", exc, msg)
       stats["fn"][fp] += 1
       if stats["fn"][fp] == 1 and (fp in res.known or len(res.violations) < 3):
         res.violation(fp, f"CPython raises {exc} ({msg[:70]}) on `{texts[j]}`; pytype reports nothing",
-                      dict(classes=pre, stmt=texts[j], pytype=errs, cpython=exc, kind="fn"))
+                      dict(classes=pre_min, stmt=texts[j], pytype=errs, cpython=exc, kind="fn"))
     if len(res.samples) < 5 and flagged and raised and st[1] >= g.NB:
       res.sample(dict(stmt=texts[j], pytype=errs, cpython=exc))
   return mism_py, mism_c
@@ -352,12 +354,12 @@ def translator_checks(res, data):
                  ["__getitem__", "__neg__", "__call__", "__init__"], "")
   diff = [(g.HEADS[i][0], n) for t in ("py_rows", "rt_rows") for i in range(g.NB)
           for n, e in data[t][i].items() if e["accP"] != e["accF"]]
-  res.extra["user_argument_not_uniform"] = sorted(set(diff))[:20]
+  res.extra["builtin_dunders_accepting_user_classes_structurally"] = sorted(set(diff))[:20]
 
 
 def active_exclusions(res):
   """Which explicit exclusions are actually needed on this run's tables (evidence only)."""
-  body = HEADER + """
+  body = HEADER + """From Coq Require Import Bool.
 Definition T := mk_table py_rows no_users. Definition R := mk_table rt_rows no_users.
 Definition hs := heads py_rows.
 Eval vm_compute in (flat_map (fun x => flat_map (fun y => flat_map (fun n =>
@@ -366,6 +368,8 @@ Eval vm_compute in (flat_map (fun x => flat_map (fun y => flat_map (fun n =>
   if is_err (binop_c R x n y) && negb (is_err (binop_py T x n y)) then [(x, n, y)] else []) advertised_names) hs) hs).
 """
   ok, out = common.run_cases_v("c14_excl", body)
+  if not ok:
+    res.extra["active_exclusions_error"] = out[-400:]
   if ok:
     vals = common.parse_coq_eval(out)
     res.extra["model_fp_triples(x,name,y)"] = vals[0][:600] if vals else ""
@@ -501,3 +505,10 @@ def replay(res, path):
   if d.get("kind") == "fp":
     return 1 if (errs and not raised) else 0
   return 1 if (raised and not errs) else 0
+
+
+def generate():
+  """Called by harness/setup.py before the Coq build (coq/Generated is not committed)."""
+  common.bootstrap_pytype()
+  txt, _ = g.regenerate()
+  common.write_if_changed(GEN_FILE, txt)
